@@ -592,6 +592,43 @@ class Project:
                 else:
                     args.append(self.ev(m, a, env))
             kwargs = {k.arg: self.ev(m, k.value, env) for k in node.keywords if k.arg}
+            # itertools combinators over constant sequences (what iterating the result ONCE yields)
+            if isinstance(f, Ext) and f.name in ("itertools.combinations", "itertools.permutations", "combinations", "permutations") and len(args) == 2 and not kwargs \
+                    and isinstance(args[0], (list, tuple)) and isinstance(args[1], int) and all(isinstance(x, (str, int)) for x in args[0]) and env.get("__materialise__"):
+                import itertools as _it
+
+                return [tuple(g) for g in (_it.combinations if "combinations" in f.name else _it.permutations)(list(args[0]), args[1])]
+            # a pure table-building helper of the repository: `def f(*groups): return [<comprehension over the arguments>]`
+            if isinstance(f, Func) and f.cls is None and env.get("__calldepth__", 0) < 3:
+                fnode = f.node
+                body = [st for st in fnode.body if not (isinstance(st, ast.Expr) and isinstance(st.value, ast.Constant))]
+                if not (len(body) == 1 and isinstance(body[0], ast.Return)):
+                    # an accumulate loop (`rows = []; for t in tags: rows.append(..); return rows`) is a comprehension
+                    try:
+                        from . import canon as _canon
+
+                        cn = _canon.loops_to_comprehensions(_canon.copy_fn(fnode))
+                        body = [st for st in cn.body if not (isinstance(st, ast.Expr) and isinstance(st.value, ast.Constant))]
+                        if len(body) == 2 and isinstance(body[0], (ast.Assign, ast.AnnAssign)) and isinstance(body[1], ast.Return) and isinstance(body[1].value, ast.Name):
+                            tg_ = body[0].targets[0] if isinstance(body[0], ast.Assign) else body[0].target
+                            if isinstance(tg_, ast.Name) and tg_.id == body[1].value.id and body[0].value is not None:
+                                body = [ast.Return(value=body[0].value)]
+                    except Exception:
+                        pass
+                if len(body) == 1 and isinstance(body[0], ast.Return) and body[0].value is not None and not fnode.args.kwonlyargs and all(v is not UNK for v in args) and not kwargs:
+                    fa = fnode.args
+                    names = [a.arg for a in fa.args]
+                    if len(args) <= len(names) or fa.vararg is not None:
+                        e2 = {"__calldepth__": env.get("__calldepth__", 0) + 1, "__materialise__": True}
+                        for nm_, v_ in zip(names, args):
+                            e2[nm_] = v_
+                        ok_ = len(args) >= len(names) - len(fa.defaults)
+                        if fa.vararg is not None:
+                            e2[fa.vararg.arg] = tuple(args[len(names):])
+                        if ok_ and len(args) >= len(names):
+                            r_ = self.ev(self.modules[f.module], body[0].value, e2)
+                            if isinstance(r_, (list, tuple, dict, str, int)) and r_ is not UNK:
+                                return r_
             return Call(f, args, kwargs, node, m.name)
         if isinstance(node, (ast.ListComp, ast.GeneratorExp, ast.SetComp)) and len(node.generators) == 1 and not node.generators[0].ifs:
             g = node.generators[0]
